@@ -44,6 +44,11 @@ pub fn is_block_expr(expr: &Expr) -> bool {
 /// before `.method()` can be applied to it.
 ///
 pub fn is_lower_precedence_than_method_call(expr: &Expr) -> bool {
+    // A `macro_rules!` fragment (`$e:expr`) arrives in a None-delimited group, which the compiler
+    // doesn't treat as parentheses in the output of a macro: what counts is the expression inside.
+    if let Expr::Group(group) = expr {
+        return is_lower_precedence_than_method_call(&group.expr);
+    }
     matches!(
         expr,
         Expr::Assign(_)
@@ -60,6 +65,7 @@ pub fn is_lower_precedence_than_method_call(expr: &Expr) -> bool {
             | Expr::Return(_)
             | Expr::Type(_)
             | Expr::Unary(_)
+            | Expr::Verbatim(_)
             | Expr::Yield(_)
     )
 }
